@@ -18,14 +18,13 @@ PLAIN_OPS = [op for op, (n, f, k) in D.OPCODES.items()
              if f not in D.BRANCH_FORMATS and n not in RETURNS and n != "throw"]
 
 
-def rand_plain(rng, allow_new=True):
-    """a random non-branching instruction as a dexw insn tuple"""
-    while True:
+def rand_plain(rng, allow_new=True, op=None, nregs=None):
+    """a random non-branching instruction as a dexw insn tuple (op: this opcode; nregs: this many argument registers for 35c/45cc)"""
+    while op is None:
         op = rng.choice(PLAIN_OPS)
-        name, fmt, kind = D.OPCODES[op]
         if op >= 0xFA and not allow_new:
-            continue
-        break
+            op = None
+    name, fmt, kind = D.OPCODES[op]
     r4 = lambda: rng.randrange(16)
     r8 = lambda: rng.choice([0, 1, 15, 16, 255, rng.randrange(256)])
     r16 = lambda: rng.choice([0, 255, 256, 65535, rng.randrange(65536)])
@@ -62,7 +61,7 @@ def rand_plain(rng, allow_new=True):
     if fmt == "31c":
         return (name, r8(), rng.choice(REFS["string"]))
     if fmt in ("35c", "45cc"):
-        regs = [r4() for _ in range(rng.randrange(6))]
+        regs = [r4() for _ in range(rng.randrange(6) if nregs is None else nregs)]
         idx = rng.choice(REFS[kind]) if kind in REFS else (rng.choice(REFS["method"]) if kind == "method+proto" else 0)
         if fmt == "45cc":
             return (name, regs, idx, W.Pro("V", ("I",)))
@@ -89,7 +88,7 @@ class MethodSpec:
 
 
 def gen_method(rng, nslots=None, misaligned=False, allow_new=True, max_tries=5, plain_only_simple=False, wild_targets=True, front_payloads=True,
-               clause_counts=(0, 1, 1, 2, 3)):
+               clause_counts=(0, 1, 1, 2, 3), plain_source=None):
     n = nslots or rng.choice([3, 5, 8, 12, 20, 40])
     slots = []  # dict(kind=..., ...)
     for i in range(n):
@@ -114,7 +113,7 @@ def gen_method(rng, nslots=None, misaligned=False, allow_new=True, max_tries=5, 
             k = "throw"
         s = {"kind": k}
         if k == "plain":
-            s["ins"] = rand_plain(rng, allow_new) if not plain_only_simple else rng.choice([("const/4", rng.randrange(4), rng.randrange(-8, 8)), ("nop",), ("add-int/2addr", 0, 1), ("move", 1, 0)])
+            s["ins"] = plain_source() if plain_source else rand_plain(rng, allow_new) if not plain_only_simple else rng.choice([("const/4", rng.randrange(4), rng.randrange(-8, 8)), ("nop",), ("add-int/2addr", 0, 1), ("move", 1, 0)])
         elif k == "goto":
             s["target"] = rng.randrange(n)
             s["width"] = rng.choice([8, 8, 16, 32])
